@@ -338,6 +338,15 @@ def obs_c10(c: Ctx):
             out.append({"q": "pair", "a": {"x": i, "y": j}, "r": call(
                 lambda a=a, b2=b2: {"anc": _bool(a.is_ancestor_of(b2)), "desc": _bool(a.is_descendant_of(b2)),
                                     "common": c.nid(a.get_common_ancestor(b2))}, lambda v: v)})
+    if n:
+        # a second tree of the same shape whose nodes carry the SAME node_ids: nodes of different trees are unrelated
+        twin = core.build(st, fl, node_ids={i: c.b.nodes[i].node_id for i in range(1, n + 1)}, name="twin")
+        for i in range(1, n + 1):
+            for j in sorted({1, i, n}):
+                a, b2 = c.b.nodes[i], twin.nodes[j]
+                out.append({"q": "pair_foreign", "a": {"x": i, "y": j}, "r": call(
+                    lambda a=a, b2=b2: {"anc": _bool(a.is_ancestor_of(b2)), "desc": _bool(a.is_descendant_of(b2)),
+                                        "common": c.nid(a.get_common_ancestor(b2))}, lambda v: v)})
     if not fl.typed:
         out.append({"q": "tree", "a": {}, "r": call(
             lambda: {"height": _int(tree.calc_height()), "children": c.ids(tree.children),
